@@ -79,6 +79,7 @@ Proof.
     destruct (coll_id s name); [|exact Hs]. unfold store_ok; cbn. apply Forall_filter. exact Hs.
   - destruct (coll_id s coll); exact Hs.
   - exact Hs.
+  - destruct (coll_id s coll); exact Hs.
   - pose proof (expire_colls_ok x (map fst (s_colls s)) s [] Hs) as H.
     destruct (expire_colls s x (map fst (s_colls s)) []) as [s' evs]. exact H.
 Qed.
